@@ -346,10 +346,10 @@ Qed.
 
 (** * one name use *)
 
-Lemma add_ref_fresh : forall p d st,
+Lemma add_ref_fresh : forall p e d st,
   Forall (fun r => fst r <> p) (st_refs st) ->
-  add_ref p d st = mkState (st_z st) (st_decls st) (st_refs st ++ [(p, d)]).
-Proof. intros p d st H. unfold add_ref. rewrite lookup_ref_fresh; [reflexivity|exact H]. Qed.
+  add_ref p e d st = mkState (st_z st) (st_decls st) (st_refs st ++ [(p, d)]) (st_cells st ++ [(d_pos d, (p, e))]).
+Proof. intros p e d st H. unfold add_ref. rewrite lookup_ref_fresh; [reflexivity|exact H]. Qed.
 
 Lemma lookup_ref_last : forall p d refs,
   Forall (fun r => fst r <> p) refs -> lookup_ref p (refs ++ [(p, d)]) = Some d.
@@ -359,11 +359,11 @@ Proof.
 Qed.
 
 (** adding the reference [p -> d] *)
-Lemma Step_add_ref : forall st p p' d res,
+Lemma Step_add_ref : forall st p e p' d res,
   Forall (fun r => fst r <> p) (st_refs st) -> p < p' -> classify (Some d) = res ->
-  Step st (add_ref p d st) p p' [] [(p, res)].
+  Step st (add_ref p e d st) p p' [] [(p, res)].
 Proof.
-  intros st p p' d res Hr Hlt Hres. rewrite add_ref_fresh by exact Hr.
+  intros st p e p' d res Hr Hlt Hres. rewrite add_ref_fresh by exact Hr.
   constructor; cbn [st_z st_decls st_refs].
   - symmetry. apply add_children_nil.
   - constructor.
@@ -408,12 +408,12 @@ Proof.
   destruct (find_decl_R st p x r pend HI ltac:(lia) HR) as (_ & Hcl & Hpos).
   assert (Hfr : Forall (fun r0 => fst r0 <> p) (st_refs st))
     by (eapply Forall_fresh; [apply (inv_refs _ _ _ HI)|lia|exact Hpend]).
-  unfold analyze_name_expr.
+  unfold analyze_name_expr. cbv zeta.
   rewrite get_decl_fresh by (eapply Forall_fresh; [apply (inv_decls _ _ _ HI)|lia|exact Hpend]).
   destruct (find_decl x p st) as [d|] eqn:E.
   - specialize (Hpos d eq_refl).
     replace (d_pos d =? p) with false by (symmetry; apply N.eqb_neq; lia).
-    assert (H : Step st (add_ref p d st) p (p + nlen x) [] [(p, lookup x r)])
+    assert (H : Step st (add_ref p (p + nlen x) d st) p (p + nlen x) [] [(p, lookup x r)])
       by (apply Step_add_ref; [exact Hfr|lia|exact Hcl]).
     destruct (is_local d); exact H.
   - rewrite <- Hcl. cbn [classify]. apply Step_no_ref; [exact Hfr|lia].
@@ -1372,9 +1372,9 @@ Lemma Step_marker : forall st p p' x,
 Proof.
   intros st p p' x Hne Hlt Hd Hr. set (g := mkDecl p x DGlobal).
   destruct (st_z st) as [|f z] eqn:Ez; [congruence|].
-  unfold analyze_name_expr, get_decl, add_decl. rewrite Ez. cbn [st_decls].
+  unfold analyze_name_expr, get_decl, add_decl. cbv zeta. rewrite Ez. cbn [st_decls].
   rewrite (get_decl_last p g (st_decls st) eq_refl Hd).
-  unfold add_ref. cbn [st_refs st_z st_decls]. rewrite (lookup_ref_fresh p _ Hr).
+  unfold add_ref. cbn [st_refs st_z st_decls st_cells]. rewrite (lookup_ref_fresh p _ Hr).
   constructor; cbn [st_z st_decls st_refs].
   - rewrite Ez. reflexivity.
   - constructor; [|constructor]. cbn [node_pos node_end node_ok node_children g d_pos]. repeat split; try lia; constructor.
@@ -1530,11 +1530,11 @@ Proof.
   - constructor; [|constructor]. cbn [fst snd]. split; [lia|]. split; [lia|exact Hres].
 Qed.
 
-Lemma Step_add_ref_none : forall st p p' d res,
+Lemma Step_add_ref_none : forall st p e p' d res,
   lookup_ref p (st_refs st) = None -> p < p' -> classify (Some d) = res ->
-  Step st (add_ref p d st) p p' [] [(p, res)].
+  Step st (add_ref p e d st) p p' [] [(p, res)].
 Proof.
-  intros st p p' d res Hn Hlt Hres. unfold add_ref. rewrite Hn.
+  intros st p e p' d res Hn Hlt Hres. unfold add_ref. rewrite Hn.
   constructor; cbn [st_z st_decls st_refs].
   - symmetry. apply add_children_nil.
   - constructor.
@@ -1544,16 +1544,16 @@ Proof.
     rewrite lookup_ref_app, Hn. unfold lookup_ref. cbn [find fst snd]. rewrite N.eqb_refl. exact Hres.
 Qed.
 
-Lemma add_ref_noop : forall p d d' st, lookup_ref p (st_refs st) = Some d' -> add_ref p d st = st.
-Proof. intros p d d' st H. unfold add_ref. rewrite H. reflexivity. Qed.
+Lemma add_ref_noop : forall p e d d' st, lookup_ref p (st_refs st) = Some d' -> add_ref p e d st = st.
+Proof. intros p e d d' st H. unfold add_ref. rewrite H. reflexivity. Qed.
 
 Lemma analyze_noop : forall x p st d',
   get_decl p st = None -> lookup_ref p (st_refs st) = Some d' -> analyze_name_expr x p st = st.
 Proof.
-  intros x p st d' Hg Hl. unfold analyze_name_expr. rewrite Hg.
+  intros x p st d' Hg Hl. unfold analyze_name_expr. cbv zeta. rewrite Hg.
   destruct (find_decl x p st) as [d|]; [|reflexivity].
-  destruct (is_local d); [apply (add_ref_noop p d d' st Hl)|].
-  destruct (d_pos d =? p); [reflexivity|apply (add_ref_noop p d d' st Hl)].
+  destruct (is_local d); [apply (add_ref_noop p _ d d' st Hl)|].
+  destruct (d_pos d =? p); [reflexivity|apply (add_ref_noop p _ d d' st Hl)].
 Qed.
 
 Lemma Step_seq_nil : forall st st1 st2 o o1 o' o2 cs1 cs2 L2,
@@ -1595,7 +1595,7 @@ Qed.
 Definition var_step (v : expr) (o : N) (st : state) : state :=
   match v with
   | EName x => match find_decl x o st with
-               | Some d => add_ref o d st
+               | Some d => add_ref o (o + nlen x) d st
                | None => add_decl (mkDecl o x DGlobal) st
                end
   | _ => st
@@ -1792,7 +1792,7 @@ Proof.
       exists []. split; [|constructor].
       destruct Hok as [(Hg & d & Hl & Hc) | (m & Hg & Hkm & Hl & Hn)]; cbn [fst snd] in *.
       - rewrite (analyze_noop x o st d Hg Hl). apply Step_have_ref; [lia|]. rewrite Hl. exact Hc.
-      - unfold analyze_name_expr. rewrite Hg. apply Step_add_ref_none; [exact Hl|lia|].
+      - unfold analyze_name_expr. cbv zeta. rewrite Hg. apply Step_add_ref_none; [exact Hl|lia|].
         cbn [classify]. rewrite Hkm. symmetry. exact Hn. }
     destruct H1 as (cs1 & Hs1 & Hc1).
     destruct rest as [|v2 r2].
